@@ -54,22 +54,25 @@ CLAIMED.update({
         "starting where the previous ended, the first five called with state=source and the last two with "
         "state=target; the stored state is untouched until the assignment and is the target after it (RTC); a "
         "rejected candidate runs validators and conditions only; event-named callbacks are admitted iff the trigger "
-        "is their event; one result per admitted callback; initial activation is the start state's enter group "
-        "only. " + ENG_TIE + "Compared: the order of callback invocations group by group, the injected event / "
+        "is their event; every admitted callback of a group is called exactly once and every call of the group is "
+        "an admitted callback; every callback of the first five groups reads the source as current state and every "
+        "callback of enter / after the target; initial activation is the start state's enter group only. " + ENG_TIE + "Compared: the order of callback invocations group by group, the injected event / "
         "source / target / state and the current state read inside callbacks.",
         "Coq proof (activation sequence theorem, frame lemmas) + differential correspondence",
-        "DESIGN.md 5 C02", "Exactly-once per (spec, provider) is covered by the correspondence and by C12's registry theorems."),
+        "DESIGN.md 5 C02", "Also generated: listeners attached later with add_listener (incl. a targeted family: a two-event transition fires, a listener with event-named callbacks is attached, the transition fires through the other event), coroutines that really suspend with a phase-overlap assertion."),
     "C03": (
         "Theorems (Properties/C03.v): while the lock is held a send from any callback only appends to the queue and "
         "returns None; therefore the faithful engine equals the documented flat engine (refinement, all machines / "
         "behaviours / triggers / configurations); nothing a callback does touches the lock; during an event the "
         "queue only grows at the back and the drain loop pops at the front; the outermost call returns the first "
-        "processed event's result and never the __initial__ sentinel. " + ENG_TIE + "Compared: callback order "
+        "processed event's result and never the __initial__ sentinel; a drain processes exactly the queued triggers "
+        "in put order, each to completion before the next begins (FIFO), and every callback of a drain runs at the "
+        "depth of the drain however many events were queued (constant depth). " + ENG_TIE + "Compared: callback order "
         "across events, every nested and outer return value / exception, and the engine depth of every callback "
         "(rank of the Python stack depth), including self-triggering chains of length up to 300 (quick) / 1500 "
         "(thorough) at constant depth and rtc=False chains at increasing depth.",
         "Coq proof (refinement faithful engine = flat engine, lock/queue frame lemmas) + differential correspondence",
-        "DESIGN.md 5 C03", "The FIFO-blocks statement over whole drain runs and constant depth are checked by the correspondence; their Coq statements are listed as future work in DESIGN.md."),
+        "DESIGN.md 5 C03", "Depth in the theorem is the model's engine depth; that it is the Python stack depth is what the depth-rank comparison of the correspondence checks."),
     "C04": (
         "Theorems (Properties/C04.v): a failure in validators/conditions/before/exit/on escapes with the stored "
         "state unchanged, a failure in enter/after escapes with the target stored, and no other outcome of "
@@ -95,30 +98,38 @@ CLAIMED.update({
         "for none, the value for one, the list otherwise with before first; the two lists are exactly what the "
         "before group and the on group of the executed transition returned; one value per admitted callback "
         "(explicit None kept, other events' callbacks filtered); a tolerated event without transition returns "
-        "None. " + ENG_TIE + "Compared: the value returned by every call (order inside one group left open).",
+        "None; two behaviours that agree on the before / on callbacks give the same result whatever guards, "
+        "validators, exit, enter and after callbacks return (frame theorem). " + ENG_TIE + "Compared: the value returned by every call (order inside one group left open).",
         "Coq proof (unwrap rule, activation result lemma) + differential correspondence",
         "DESIGN.md 5 C14", ""),
 })
 
 CLAIMED["C07"] = (
-    "Theorems (Properties/C07.v), for every signature (any number and order of positional-only / "
-    "positional-or-keyword / defaulted / *args / keyword-only / **kwargs parameters) and every call shape: the "
-    "binder binds declared parameters only (undeclared data is dropped); the binder itself raises TypeError only "
-    "for a positional-only parameter named as keyword (D15, known finding); a built-in name always yields the "
-    "library's value for the event being processed and every other name the user's value; trigger data never "
-    "carries a reserved name.  The full functional contract (which value each parameter receives, never a "
-    "TypeError except for a missing required parameter) is stated as the executable reference CPython call "
-    "binding py_call and is decided by the correspondence: EXHAUSTIVE over every signature `def` accepts with up "
-    "to 3 (quick) / 4 (thorough) parameters x 0..len+1 positional values x every keyword subset, plus random "
-    "signatures to 7 parameters, over functions / bound methods / partials / coroutines, real machine callbacks "
-    "with reserved names overridden by the user, and pairs of same-named callables bound one after the other "
-    "(signature cache).  Real def statements are bound by the real SignatureAdapter and really called; what they "
-    "received is compared in coqc with the model of bind_expected + BoundArguments + CPython binding.",
-    "Coq proof (binder frame + reserved-name layering) + exhaustive/random differential correspondence against the reference call semantics",
+    "Theorems (Properties/C07.v), for every signature `def` accepts (any number and order of positional-only / "
+    "positional-or-keyword / defaulted / *args / keyword-only / **kwargs parameters), every list of positional "
+    "values and every keyword map: the binder computes exactly the declarative assignment spec_bind (one pass "
+    "over the declared parameters: positional slots in order, a positional-or-keyword parameter named in the "
+    "keywords takes the keyword, *args the surplus, keyword-only by name, **kwargs exactly the unconsumed "
+    "keywords in order, everything else dropped) whenever no positional-only parameter is named (that region is "
+    "the known finding D15); for ANY well-formed bound arguments, CPython's binding of f(*ba.args, **ba.kwargs) "
+    "either raises 'missing required argument' - exactly when a parameter without default is unbound - or "
+    "assigns every declared parameter what was bound (star parameters: that or empty); composed: the whole "
+    "adapter hands each declared parameter exactly its assigned value and no other TypeError is possible.  "
+    "Also: only declared parameters are ever bound; the binder's only own TypeError is D15; a built-in name "
+    "always yields the library's value for the event being processed and every other name the user's value; "
+    "trigger data never carries a reserved name.  Tied to /repo by the correspondence: EXHAUSTIVE over every "
+    "signature with up to 3 (quick) / 4 (thorough) parameters x 0..len+1 positional values x every keyword "
+    "subset, plus random signatures to 7 parameters, over functions / bound methods / partials / coroutines, real "
+    "machine callbacks with reserved names overridden by the user, callables in guard position inside comparison "
+    "expressions, and pairs of same-named callables bound one after the other (signature cache).  Real def "
+    "statements are bound by the real SignatureAdapter and really called; what they received is compared in coqc "
+    "with the model of bind_expected + BoundArguments + CPython binding, and the contract statement itself is "
+    "evaluated on every case.",
+    "Coq proof (binder = declarative assignment; BoundArguments round trip; adapter contract; reserved-name layering) + exhaustive/random differential correspondence",
     "DESIGN.md 5 C07",
-    "Partial: the slot-by-slot value contract is a checked executable specification, not yet a Coq theorem. "
-    "One genuine defect repaired (fix: e0ead44, keyword-only parameter lost after surplus positionals); known "
-    "findings D15 and D7 listed in known_findings.json.")
+    "CPython's call binding (py_call) and inspect.BoundArguments.args/.kwargs are modelled, validated by the "
+    "correspondence against real calls.  One genuine defect repaired (fix: e0ead44, keyword-only parameter lost "
+    "after surplus positionals); known findings D15 and D7 listed in known_findings.json.")
 
 CLAIMED["C08"] = (
     "Theorems (Properties/C08.v): a transition's guard list is satisfied iff every entry, evaluated in order, "
@@ -126,8 +137,9 @@ CLAIMED["C08"] = (
     "bool(value) is True and an unless entry iff it is False, for values of any type; the closure tree "
     "build_expression builds from the AST has exactly Python's value, TypeError and left-to-right short-circuit "
     "read sequence, for every expression of the grammar (n-ary and/or, not, names, literals, the six "
-    "comparisons - chained comparisons excepted, where the library reads the middle operand twice) and every "
-    "environment.  Tied to /repo three-way: random and small-exhaustive expression trees are spelled canonically "
+    "comparisons - chained comparisons excepted, where the library reads the middle operand once per "
+    "comparison) and every environment; and for EVERY expression, chains included, the same value and the same "
+    "TypeError as Python.  Tied to /repo three-way: random and small-exhaustive expression trees are spelled canonically "
     "(evaluated by CPython's own eval as reference) and in a random alternative spelling (! ^ v, 0-2 spaces, "
     "redundant parentheses, names containing v / not / and / or) given to a real transition as cond or unless, "
     "the names being properties / methods / attributes of machine / model / listener, under several valuations "
@@ -137,8 +149,9 @@ CLAIMED["C08"] = (
     "Coq proof (guard conjunction; build_expression = Python evaluation) + three-way differential correspondence (library / model / CPython eval)",
     "DESIGN.md 5 C08",
     "Partial: the textual layer (regex rewriting of ! ^ v and CPython's parser/precedence) is validated by the "
-    "three-way correspondence, not proved; chained comparisons are proved only through the correspondence.  Two "
-    "genuine defects repaired (fix: 6fb3a72, fix: 198c81d).")
+    "three-way correspondence, not proved.  Several guard entries per transition and both engines are "
+    "generated.  Three genuine defects repaired (fix: 6fb3a72, fix: 198c81d, fix: c06e898 executor key ignored "
+    "grouping).")
 
 CLAIMED["C10"] = (
     "Theorems (Properties/C10.v): for state values pairwise different as dict keys, whatever valid value the "
@@ -177,15 +190,15 @@ CLAIMED["C18"] = (
     "pairwise different identifiers; exactly one edge leaves the pseudo-node and points at the initial state; "
     "every external transition is an edge from its source to its target carrying its events and guards and "
     "every other edge is such a transition (internal transitions yield no edge and are listed inside their "
-    "state); a double border exactly on final states; for an instance exactly the current state is highlighted, "
+    "state); the transition edges are a permutation of the external transitions (none dropped, none drawn "
+    "twice, however many join the same two states); a double border exactly on final states; for an instance exactly the current state is highlighted, "
     "for a class none.  Tied to /repo by building random machine classes (finals, multi-event / self / internal "
     "transitions, cond / unless guards, four declaration styles), taking the real pydot graph of the class and "
     "of an instance in 1..all of its states, and comparing nodes (id, peripheries, highlight, internal lines) and "
     "edges (source, target, events, guards with ! for unless) as multisets with the model in coqc.",
     "Coq proof (node/edge characterisation) + differential correspondence on the pydot object",
     "DESIGN.md 5 C18",
-    "Edge multiplicity (exactly one edge per transition when several transitions join the same two states) is "
-    "decided by the multiset comparison of the correspondence; label wording, colours other than the highlight, "
+    "Label wording, colours other than the highlight, "
     "fonts are not part of the property.")
 
 CLAIMED["C05"] = (
@@ -229,7 +242,8 @@ CLAIMED["C17"] = (
     "callbacks cloned before its activation keeps exactly one pending __initial__ trigger; the clone's registry "
     "is the original's; hence after any history the clone answers every suffix of operations exactly as the "
     "original.  " + ENG_TIE + "Here a history is run, the machine is cloned with copy.deepcopy or a pickle round "
-    "trip at a random point (also before any event, i.e. before activation of an async machine), and original "
+    "trip - also copies of copies mixing both mechanisms - at a random point (also before any event, i.e. before "
+    "activation of an async machine; also after listeners were attached with one multi-argument add_listener), and original "
     "and clone are driven alternately with different suffixes: the original's trace is compared with the model of "
     "prefix+suffixA (the clone's activity must not show), the clone's with prefix+clone+suffixB; directly "
     "asserted: clone.model and listeners are new objects, rtc / allow_event_without_transition / state_field / "
@@ -248,7 +262,8 @@ CLAIMED["C16"] = (
     "kinds: D7).  Tied to /repo metamorphically and against the model: each random machine A is run alone and "
     "run again with unrelated activity between every two of its operations (another instance of the class with "
     "other listeners incl. coroutine ones; another class with the same class and method names; a subclass adding "
-    "callbacks; an unrelated class); A's observations must be identical and equal the model of A alone.  Probe: "
+    "callbacks; an unrelated class; an unrelated class whose state ids are A's callback names; A driven from "
+    "inside a running callback of an unrelated machine); A's observations must be identical and equal the model of A alone.  Probe: "
     "a subclass declaring a transition from an inherited state changes the base class (known finding D13); the "
     "cache collision D7 is exhibited by C07's pairs.",
     "Coq proof (signature cache transparent under key separation; one-machine models) + metamorphic/differential correspondence",
@@ -286,12 +301,14 @@ CLAIMED["C15"] = (
     "baseline and in up to 10 (quick) / 24 (thorough) random combinations of {event=\"a b\", event=[...], Event() "
     "objects, attribute assignment, Event(tl, name=)} x {to, from_, multi-target, multi-source} x itself() x "
     "{State attributes, States({...}), States.from_enum} x {direct, inherited from a base class}, plus a "
-    "from_.any() rendering: the real classes must have the same states, event set and ordered per-state "
+    "from_.any() rendering (also with cond / unless guards), mixed attachment (event= on some transitions, class "
+    "attribute for the same event on others) and decorator renderings (@tl.before/.on/.after/.validators/.cond/"
+    ".unless def f, and @(t1 | t2) def event(self) declaring an event with its on action): the real classes must have the same states, event set and ordered per-state "
     "transitions (target, internal, events, guards, validators, callbacks) and give the same observations on the "
     "common history; the baseline is compared with the engine model in coqc.",
     "Coq proof (creation-order semantics of the declaration styles) + pairwise differential correspondence of renderings",
     "DESIGN.md 5 C15",
-    "Partial: decorator-declared events are not rendered; States / enum / inheritance / Event-object styles are "
+    "Partial: decorator styles, States / enum / inheritance / Event-object styles are "
     "covered by the correspondence only (the Coq model covers the transition-creating and event-attaching calls).")
 
 PENDING_REASON = "check not built yet in this session (work in progress; see DESIGN.md 9 for the order of work)"
